@@ -12,7 +12,7 @@ def families(tier):
 
 def run(v):
     big = D.cmd_family(SEED + 1080, 40, depth=3, budget=10**9)
-    cov = run_cmdline_property(v, families(v.tier), "MC_CmdLine_design.cfg", signature=cmdline_sig.signature,
+    cov = run_cmdline_property(v, families(v.tier), "MC_CmdLine_design.cfg", signature=cmdline_sig.signature, ledger_every=(6 if v.tier == "quick" else 1),
                                driver={"defs": big, "n": 20000 if v.tier == "quick" else 300000, "maxlen": 12, "mutate": 0.6,
                                        "extras": ("help",)})
     cov["rule"] = ("command trees of depth <= 3 with aliases, short aliases, optional commands and leaf positionals; all lines up "
